@@ -162,9 +162,9 @@ def run(ctx, rep):
     for r in rets:
         e = r.ast.value.elts
         lists = set()
-        for an in appends:
+        for an in appends + extends:
             for c in A.calls(an.ast):
-                if isinstance(c.func, ast.Attribute) and c.func.attr == "append" and isinstance(c.func.value, ast.Name):
+                if isinstance(c.func, ast.Attribute) and c.func.attr in ("append", "extend") and isinstance(c.func.value, ast.Name):
                     lists.add(c.func.value.id)
 
         def tuple_of_list(x):
@@ -250,17 +250,22 @@ def run(ctx, rep):
                        "the class lookup has no default: a record naming a class that is not an attribute of the loaded module "
                        "(nested/dynamic classes, version skew) raises AttributeError out of _dispatch - the response is never "
                        "delivered to its request", ctx.loc(cc))
-    gen = [c for c in A.find_calls(fl.node, "type") if len(c.args) == 3]
-    okn = False
+    gen = [n for n in gl.live if n.kind == "stmt" and n.ast is not None and any(
+        len(c.args) == 3 and isinstance(c.args[1], ast.Tuple) for c in A.calls(n.ast))]
     mc = None
     for n in A.walk(fl.node):
         if isinstance(n, ast.Assign) and isinstance(n.targets[0], ast.Tuple) and len(n.targets[0].elts) == 4 and \
                 isinstance(n.targets[0].elts[0], ast.Tuple) and len(n.targets[0].elts[0].elts) == 2:
             mc = [A.src(x) for x in n.targets[0].elts[0].elts]
-    for n in A.walk(fl.node):
-        if mc and isinstance(n, ast.Assign) and isinstance(n.value, ast.BinOp) and isinstance(n.value.op, ast.Mod):
-            if A.src(n.value) == "'%%s.%%s' %% (%s, %s)" % (mc[0], mc[1]):
-                okn = True
+    rdl = Q.ReachingDefs(gl)
+    okn = bool(gen) and mc is not None
+    for n in gen:
+        for c in A.calls(n.ast):
+            if len(c.args) == 3 and isinstance(c.args[1], ast.Tuple):
+                nm = K.resolve_expr(rdl, n, c.args[0])
+                while isinstance(nm, ast.Call) and A.call_name(nm) == "str" and len(nm.args) == 1:
+                    nm = nm.args[0]
+                okn = okn and mc is not None and A.src(nm) == "'%%s.%%s' %% (%s, %s)" % (mc[0], mc[1])
     rep.ob("R09.4", "vinegar.load: the generic stand-in is named '<module>.<class>' after the original", okn and bool(gen),
            "named '%s.%s' % (module name, class name) of the payload" if okn else "the stand-in class is not named after the original", fl.loc,
            kind="site")
